@@ -8,6 +8,7 @@ from .. import corpus, monitors, spec
 from ..build import Build, BuildError
 from ..core import Result
 from ..schema_gen import SchemaGen, render_set
+from ..values import attr_names
 from ..valuework import plan_items, replay_value, run_value_shard, witness
 from ..values import BP, REF, Gen, diff_signature, diff_trees, tree_from_json, tree_to_json
 from ..wiregen import WireGen
@@ -167,6 +168,46 @@ def check_histories(b, bp, mi, tree, res: Result, w, rng, e0: bytes):
         kind = "lost" if len(got_unknown) < len(u1 + u2) else "reordered-or-altered"
         res.violation("unknown-not-preserved", ["two-decodes", kind, "-"],
                       f"{mi.full_name}: unknown records of two decode calls onto one object: in={[u.hex() for u in u1 + u2]} out={[u.hex() for u in got_unknown]}", ww)
+    # (1b) a singular sub-message field occurring several times: unknown records inside the last occurrence survive
+    fields = {f.number: f for f in mi.fields}
+    recs_p = spec.read_records(e0)
+    cands = [r for r in recs_p if r.wt == spec.WT_LEN and r.number in fields and fields[r.number].kind == "message"
+             and fields[r.number].wkt is None and fields[r.number].label in ("singular", "optional", "oneof")]
+    if cands:
+        r = rng.choice(cands)
+        sknown = {f.number for f in b.msgs[fields[r.number].type_name].fields}
+        ua, ub = wg.unknown_record(sknown), wg.unknown_record(sknown)
+        data = e0 + spec.enc_record(r.number, spec.WT_LEN, ua) + spec.enc_record(r.number, spec.WT_LEN, r.value + ub)
+        ww2 = dict(w, bytes=data.hex(), mode="sub-message-twice")
+        res.note("histories_sub_message_twice")
+        try:
+            out = bytes(cls().parse(data))
+            subs = [x for x in spec.read_records(out) if x.number == r.number and x.wt == spec.WT_LEN]
+            inner_unknown = [x.raw for sr in subs for x in spec.read_records(sr.value) if x.number not in sknown]
+            # the implementation replaces an earlier occurrence by a later one (no merge): only what the LAST occurrence
+            # carries is required to survive -- merge semantics are not part of the property
+            missing = [u for u in (ub,) if u not in inner_unknown]
+            if missing:
+                res.violation("unknown-not-preserved", ["sub-message-twice", "lost", "-"],
+                              f"{mi.full_name}: field {r.number} occurs several times; unknown records {[u.hex() for u in missing]} inside an occurrence were dropped; "
+                              f"input {data.hex()[:200]}", ww2)
+        except Exception as ex:
+            res.violation("interleave-raises", ["sub-message-twice", "raised:" + type(ex).__name__], f"{mi.full_name}: {ex!r}", ww2)
+        # (1c) re-homing: a decoded child (carrying unknown fields) handed to the constructor of a new parent
+        try:
+            src = cls().parse(e0[:0] + b"".join(x.raw for x in recs_p if x is not r) + spec.enc_record(r.number, spec.WT_LEN, r.value + ua))
+            attr = attr_names(cls)[r.number]
+            child = getattr(src, attr)
+            fresh = cls(**{attr: child})
+            got = [x for x in spec.read_records(bytes(fresh)) if x.number == r.number and x.wt == spec.WT_LEN]
+            kept = [x.raw for sr in got for x in spec.read_records(sr.value) if x.number not in sknown]
+            res.note("histories_rehomed_child")
+            if ua not in kept:
+                res.violation("unknown-not-preserved", ["child-passed-to-constructor", "lost", "-"],
+                              f"{mi.full_name}: a decoded sub-message holding the unknown record {ua.hex()} was passed to the constructor of a new {mi.full_name}; "
+                              f"the new message encodes to {bytes(fresh).hex()[:160]}", dict(w, mode="rehome", bytes=e0.hex()))
+        except Exception as ex:
+            res.note("rehome-raised:" + type(ex).__name__)
     # (2) copies
     for how in ("copy", "deepcopy"):
         res.note("histories_copy_then_decode")
